@@ -30,6 +30,8 @@
 //!   rows) and patched into the mask. NULL rows are the rare case; the fused
 //!   loop still covers every all-valid row.
 //! - f64 division by zero produces ±inf/NaN in both paths (never null).
+//! - f64 comparisons use the IEEE 754 totalOrder predicate, as arrow's `cmp`
+//!   kernels do (NaN equals NaN and sorts above +inf; -0.0 < +0.0).
 //! - numeric comparisons require identical arrow types on both sides;
 //!   anything the interpreter would coerce falls back to the interpreter.
 //!
@@ -404,6 +406,15 @@ impl Compiler {
     }
 }
 
+/// Order-preserving i64 image of an f64 under IEEE 754 totalOrder (the same
+/// transform `f64::total_cmp` applies): comparing keys as integers equals
+/// comparing the floats the way arrow's comparison kernels do.
+#[inline(always)]
+fn total_order_key(v: f64) -> i64 {
+    let bits = v.to_bits() as i64;
+    bits ^ ((((bits >> 63) as u64) >> 1) as i64)
+}
+
 fn lit_f64(v: &ScalarValue) -> Option<f64> {
     match v {
         ScalarValue::Float64(x) => Some((*x).into()),
@@ -688,7 +699,31 @@ impl CompiledPredicate {
                         Src::Reg(r) => FOp::Slice(&f[*r as usize][..len]),
                         other => resolve(other),
                     };
-                    cmp_loop!(a_op, b_op, op, *dst, FOp);
+                    // Compare under the IEEE 754 totalOrder predicate, like
+                    // arrow's `cmp` kernels the interpreter uses (NaN = NaN,
+                    // NaN above +inf, -0.0 < +0.0): map each operand to its
+                    // order-preserving i64 key, then reuse the integer loops.
+                    let mut ka = [0i64; CHUNK];
+                    let mut kb = [0i64; CHUNK];
+                    let a_key = match a_op {
+                        FOp::Slice(x) => {
+                            for i in 0..len {
+                                ka[i] = total_order_key(x[i]);
+                            }
+                            IOp::Slice(&ka[..len])
+                        }
+                        FOp::Scalar(v) => IOp::Scalar(total_order_key(v)),
+                    };
+                    let b_key = match b_op {
+                        FOp::Slice(y) => {
+                            for i in 0..len {
+                                kb[i] = total_order_key(y[i]);
+                            }
+                            IOp::Slice(&kb[..len])
+                        }
+                        FOp::Scalar(v) => IOp::Scalar(total_order_key(v)),
+                    };
+                    cmp_loop!(a_key, b_key, op, *dst, IOp);
                 }
                 Instr::CmpI64 { a, b, op, dst } => {
                     let resolve = |src: &Src| -> IOp<'_> {
